@@ -34,10 +34,15 @@ ASSUMPTIONS = [
     "operands (checked per layer) is <= 52 bits; the step of the accumulator "
     "is tested only where the model's float32 output equals that exact value "
     "(else only the range is tested, label inexact_f32)",
-    "a float32/float64 disagreement above 1e-4 relative is a harness error",
+    "a float32/float64 disagreement above 1e-4 * (max|x| * max|w| * fan_in + "
+    "max|b|) makes the layer unjudged (label reference_mismatch_skipped); "
+    "smaller disagreements are float32 rounding (inexact_f32, range only)",
     "source quantizer quantized_bits(b,i,symmetric=1); activations between "
     "layers are quantized_relu or symmetric quantized_bits, so the "
     "most-negative x most-negative product is outside the domain",
+    "activation outputs are judged only for inputs below 2^22 grid steps of "
+    "the activation (float32 x + (xq - x) is exact there, C01's bound); a case "
+    "with larger pre-activations is not judged downstream of that activation",
     "auto_po2 kernels: the fused_accumulator is tested and the weight type is "
     "applied to quantized_kernel / scale",
     "analyze_accumulator: stored weights are on a dyadic lattice and the range "
@@ -318,12 +323,22 @@ def oracle_model(ctx, case, stats):
         fam = "act:relu_1bit" if l["q"]["int"] != 1 else "act:relu_binary01"
       if r is None:
         raise core.HarnessError("layer %s missing from the qtools report" % name)
-      for clause, _, text in T.violations(r["output_quantizer"], outs[i]):
+      # the quantizers return x + (xq - x) in float32: beyond 2^22 grid steps
+      # that expression is no longer exact (C01's stated bound) and the
+      # activation emits off-grid values that are not qtools' doing; such
+      # elements are not judged, and nothing downstream of them either
+      u_act = G.fixed_lattice(l["q"])[0]
+      ok_in = np.abs(xin.astype(np.float64)) < 2.0 ** 22 * u_act
+      beyond = not bool(ok_in.all())
+      for clause, _, text in T.violations(r["output_quantizer"], outs[i][ok_in]):
         fails.append(("activation_type",
                       {"clause": clause, "act": fam[4:]},
                       "%s %r reported %s: %s" % (name, l["q"],
                                                  T.describe(r["output_quantizer"]), text)))
       prev_family = fam
+      if beyond:
+        stats["labels"].add("act_input_beyond_ste_regime")
+        break
       continue
     if l["k"] == "flatten":
       continue
@@ -338,10 +353,18 @@ def oracle_model(ctx, case, stats):
     if y64.shape != y32.shape:
       raise core.HarnessError("reference conv shape %r != model %r" %
                               (y64.shape, y32.shape))
+    # harness self-check of the reference.  float32 accumulation may lose up to
+    # fan_in * 2^-24 * sum|terms|; under cancellation (2^15 terms cancel, 2^-16
+    # terms remain) that is large relative to |y| itself, so the error is
+    # judged against the magnitude of the TERMS, not of the result.  A layer
+    # beyond that is not judged at all (label, never a violation or an abort).
     err = np.abs(y64 - y32).max() if y64.size else 0.0
-    if err > 1e-4 * max(np.abs(y64).max(), 1e-30):
-      raise core.HarnessError("float64 reference disagrees with the model at %s "
-                              "(%r): max err %r" % (name, l, err))
+    scale = np.abs(x64).max() * np.abs(wq).max() * fan_in if x64.size else 0.0
+    if bq is not None:
+      scale += np.abs(bq).max()
+    if err > 1e-4 * max(scale, 1e-30):
+      stats["labels"].add("reference_mismatch_skipped")
+      continue
     exact = bool(np.array_equal(y64, y32))
     stats["labels"].add("exact_f32" if exact else "inexact_f32")
 
@@ -554,14 +577,15 @@ def case_strategy(quick):
         l["dm"] = draw(st.sampled_from([1, 1, 2, 3]))
     l["bias"] = draw(st.booleans())
     l["kq"] = draw(G.st_kernel_q(st, wide=not quick))
-    if prev_act is not None and prev_act["t"] in ("bin", "ter") and \
-        l["kq"]["t"] == "qb" and not G.is_auto(l["kq"]):
-      # -1 x most-negative code is outside the domain (as min x min is)
-      l["kq"] = dict(l["kq"], sym=1)
     if l.get("dm", 1) > 1 and G.is_auto(l["kq"]):
       # qtools documents depth_multiplier == 1 for auto_po2 depthwise kernels
       # (assert in adjust_accumulator_for_auto_po2)
       l["kq"] = dict(l["kq"], alpha=1.0)
+    if prev_act is not None and prev_act["t"] in ("bin", "ter") and \
+        l["kq"]["t"] == "qb" and not G.is_auto(l["kq"]):
+      # -1 x most-negative code is outside the domain (as min x min is);
+      # applied AFTER the auto_po2 -> alpha=1 replacement above
+      l["kq"] = dict(l["kq"], sym=1)
     l["bq"] = draw(G.st_bias_q(st))
     l["wmode"] = draw(st.sampled_from(["random", "max", "min", "signed_max", "lsb"]))
     l["wseed"] = draw(st.integers(0, 2 ** 16))
